@@ -1,4 +1,4 @@
-import SuxModel.GF2.Model
+import SuxModel.GF2.Spec
 /-!
 # GF(2) lemmas, part 1: `add` (sorted-merge XOR), evaluation, `check`
 -/
@@ -21,15 +21,6 @@ theorem xor_xor_xor_comm (a b c d : Nat) : (a ^^^ b) ^^^ (c ^^^ d) = (a ^^^ c) ^
 
 /-! ## Pure evaluation -/
 
-/-- XOR of the values `f v` of the listed variables -/
-def evalP (f : Nat → Nat) : List Nat → Nat
-  | [] => 0
-  | v :: vs => f v ^^^ evalP f vs
-
-@[simp] theorem evalP_nil (f : Nat → Nat) : evalP f [] = 0 := rfl
-@[simp] theorem evalP_cons (f : Nat → Nat) (v : Nat) (vs : List Nat) :
-    evalP f (v :: vs) = f v ^^^ evalP f vs := rfl
-
 theorem evalP_append (f : Nat → Nat) (l r : List Nat) :
     evalP f (l ++ r) = evalP f l ^^^ evalP f r := by
   induction l with
@@ -44,11 +35,6 @@ theorem evalP_congr {f g : Nat → Nat} {l : List Nat} (h : ∀ v ∈ l, f v = g
   | cons a l ih =>
     simp only [evalP_cons]
     rw [h a (by simp), ih (fun v hv => h v (by simp [hv]))]
-
-/-- strictly increasing -/
-def Sorted (l : List Nat) : Prop := l.Pairwise (· < ·)
-
-instance (l : List Nat) : Decidable (Sorted l) := by unfold Sorted; infer_instance
 
 theorem Sorted.tail {a : Nat} {l : List Nat} (h : Sorted (a :: l)) : Sorted l :=
   (List.pairwise_cons.mp h).2
@@ -262,20 +248,6 @@ theorem sorted_addPtr {l r : List Nat} (hl : Sorted l) (hr : Sorted r) : Sorted 
 
 /-! ## Equations and assignments -/
 
-/-- the assignment `f` satisfies the equation -/
-def Eqn.Holds (e : Eqn) (f : Nat → Nat) : Prop := evalP f e.vars = e.c
-
-instance (e : Eqn) (f : Nat → Nat) : Decidable (e.Holds f) := by unfold Eqn.Holds; infer_instance
-
-/-- strictly increasing variables, all with property `Q` -/
-def RowOK (Q : Nat → Prop) (e : Eqn) : Prop := Sorted e.vars ∧ ∀ v ∈ e.vars, Q v
-
-/-- strictly increasing variables below `nv` -/
-abbrev RowWF (nv : Nat) (e : Eqn) : Prop := RowOK (· < nv) e
-
-instance (nv : Nat) (e : Eqn) : Decidable (RowWF nv e) := by
-  unfold RowWF RowOK; infer_instance
-
 theorem evalP_add (f : Nat → Nat) (a b : Eqn) :
     evalP f (a.add b).vars = evalP f a.vars ^^^ evalP f b.vars := evalP_addPtr f _ _
 
@@ -332,9 +304,6 @@ theorem vars_ne_nil_of_not {e : Eqn} (h1 : e.isUnsolvable = false) (h2 : e.isIde
 
 /-! ## `eval_vars` and `check` -/
 
-/-- the assignment read off a vector of values (variables beyond its end read 0) -/
-def asg (vals : Array Nat) : Nat → Nat := fun v => vals.getD v 0
-
 theorem evalVarsAux_eq (vals : Array Nat) (vars : List Nat) (acc : Nat)
     (h : ∀ v ∈ vars, v < vals.size) :
     evalVarsAux vals vars acc = .ok (acc ^^^ evalP (asg vals) vars) := by
@@ -372,9 +341,6 @@ theorem evalVars_cases (vals : Array Nat) (vars : List Nat) :
   by_cases h : ∀ v ∈ vars, v < vals.size
   · exact Or.inl ⟨evalVars_eq vals vars h, h⟩
   · exact Or.inr ⟨evalVarsAux_panic vals vars 0 h, h⟩
-
-/-- all equations of the list hold -/
-def SatL (es : List Eqn) (f : Nat → Nat) : Prop := ∀ e ∈ es, e.Holds f
 
 theorem checkAll_true_iff (sol : Array Nat) (es : List Eqn) :
     checkAll sol es = .ok true ↔
@@ -425,9 +391,6 @@ theorem checkAll_ne_oob (sol : Array Nat) (es : List Eqn) : checkAll sol es ≠ 
       · exact ih
       · simp
     · rw [h1]; simp
-
-/-- the equations of the system hold under `f` -/
-def Sys.Sat (s : Sys) (f : Nat → Nat) : Prop := SatL s.eqs.toList f
 
 /-- `check` returns `true` exactly for vectors of the right length that satisfy every equation
 (all of whose variables are then in range) -/
